@@ -701,48 +701,14 @@ func (o *FilterOptimizer) unionRange(l, r *ScanType) *ScanType {
 		rstart, rend = rend, rstart
 	}
 
-	// Same range just return left
-	if bytes.Compare(lstart, rstart) == 0 && bytes.Compare(lend, rend) == 0 {
-		return l
-	}
-
-	var (
-		nstart []byte = nil
-		nend   []byte = nil
-	)
-
-	// | ^LS,RS | LE,RE$ |
-	// just use full scan instead
-	if lstart == nil && rstart == nil && lend == nil && rend == nil {
-		return &ScanType{FULL, nil}
-	}
-
-	if inRange(lstart, lend, rstart, false) && !inRange(lstart, lend, rend, true) {
-		// | LS | RS | LE | RE |
-		nstart = lstart
-		nend = rend
-	} else if inRange(rstart, rend, lstart, false) && !inRange(rstart, rend, lend, true) {
-		// | RS | LS | RE | LE |
+	// The union is covered by the range from the smaller start to the
+	// greater end, a nil start or end means unbounded
+	nstart, nend := lstart, lend
+	if rstart == nil || (nstart != nil && bytes.Compare(rstart, nstart) < 0) {
 		nstart = rstart
-		nend = lend
-	} else if inRange(lstart, lend, rstart, false) && inRange(lstart, lend, rend, true) {
-		// | LS | RS | RE | LE |
-		nstart = lstart
-		nend = lend
-	} else if inRange(rstart, rend, lstart, false) && inRange(rstart, rend, lend, true) {
-		// | RS | LS | LE | RE |
-		nstart = rstart
+	}
+	if rend == nil || (nend != nil && bytes.Compare(rend, nend) > 0) {
 		nend = rend
-	} else if !inRange(lstart, lend, rstart, false) && !inRange(lstart, lend, rend, true) {
-		if inRange(lstart, rstart, lend, true) {
-			// | LS | LE | RS | RE |
-			nstart = lstart
-			nend = rend
-		} else if inRange(rstart, lstart, rend, true) {
-			// | RS | RE | LS | LE |
-			nstart = rstart
-			nend = lend
-		}
 	}
 
 	if nstart == nil && nend == nil {
@@ -750,7 +716,7 @@ func (o *FilterOptimizer) unionRange(l, r *ScanType) *ScanType {
 	}
 
 	// start == end just use MGET scan
-	if bytes.Compare(nstart, nend) == 0 {
+	if nstart != nil && nend != nil && bytes.Compare(nstart, nend) == 0 {
 		return &ScanType{MGET, [][]byte{nstart}}
 	}
 	return &ScanType{RANGE, [][]byte{nstart, nend}}
